@@ -451,14 +451,35 @@ Lemma parse_key_more_np kd prefix idreq : parse_key_more L kd prefix idreq <> Pa
 Proof. unfold parse_key_more. np; auto with npdb. Qed.
 Hint Resolve parse_key_more_np : npdb.
 
-Theorem parse_key_np kd prefix idreq : parse_key kd prefix idreq <> Panic.
+Theorem parse_key_base_np kd prefix idreq : parse_key_base L kd prefix idreq <> Panic.
 Proof.
-  unfold Untrusted.parse_key. np; try solve [auto with npdb].
+  unfold Untrusted.parse_key_base. np; try solve [auto with npdb].
   - apply bind_np; [apply ecdsa_pub_of_np|]. intros [[[curve hash] enc] pt] _. discriminate.
   - apply bind_np; [apply ecdsa_pub_of_np|]. intros [[[curve hash] enc] pt] _.
     destruct (coord_size curve); [|discriminate].
     apply bind_np; [apply fixed_size_np|]. intros d _.
     destruct (ec_pub_of_priv L curve d); [|discriminate]. destruct (beq _ _); discriminate.
+Qed.
+
+Lemma composite_of_classical_np private alg d : composite_of_classical private alg d <> Panic.
+Proof. unfold composite_of_classical. destruct d; try discriminate; try apply okb_np. destruct pss; apply okb_np. Qed.
+
+Lemma parse_composite_np private kd prefix idreq : parse_composite L private kd prefix idreq <> Panic.
+Proof.
+  unfold parse_composite. cbv zeta.
+  destruct (negb (kd_mat kd =? _)); [discriminate|]. destruct (negb (wire_ok _ _)); [discriminate|].
+  destruct (negb (_ && _)); [discriminate|].
+  apply bind_np.
+  - destruct private; (destruct (url_is _ _); [|discriminate]); auto with npdb.
+  - intros _ _. destruct (negb _); [discriminate|].
+    apply bind_np; [apply parse_key_base_np|]. intros cd _.
+    destruct (negb _); [discriminate|]. apply composite_of_classical_np.
+Qed.
+
+Theorem parse_key_np kd prefix idreq : parse_key kd prefix idreq <> Panic.
+Proof.
+  unfold Untrusted.parse_key. destruct (url_is kd u_composite_pub); [apply parse_composite_np|].
+  destruct (url_is kd u_composite_priv); [apply parse_composite_np | apply parse_key_base_np].
 Qed.
 
 (* the keys the parser hands out are such that their constructors do not panic *)
@@ -467,6 +488,7 @@ Definition point_shaped (d : pkd) : Prop :=
   | PEcdsaPub _ _ _ pt | PEcdsaPriv _ _ _ pt _ | PJwtEcdsa _ _ pt => pt <> []
   | PEd25519Priv seed => blen seed = ed25519_seed_size
   | PEcies _ curve _ pt => forall c, coord_size curve = Some c -> length pt = (1 + 2 * c)%nat
+  | PComposite _ _ _ (Some seed) => blen seed = ed25519_seed_size
   | _ => True
   end.
 
@@ -605,9 +627,9 @@ Proof.
        end); kind.
 Qed.
 
-Lemma parse_key_point kd prefix idreq d : parse_key kd prefix idreq = Ok d -> point_shaped d.
+Lemma parse_key_base_point kd prefix idreq d : parse_key_base L kd prefix idreq = Ok d -> point_shaped d.
 Proof.
-  unfold Untrusted.parse_key. shape; try solve [eauto with npdb].
+  unfold Untrusted.parse_key_base. shape; try solve [eauto with npdb].
   - intros H. apply bind_ok in H. destruct H as [[[[curve hash] enc] pt] [H1 H2]].
     apply ecdsa_pub_of_ok in H1. destruct H1 as [_ [_ [_ [t ->]]]]. inversion H2; subst. simpl. discriminate.
   - intros H. apply bind_ok in H. destruct H as [[[[curve hash] enc] pt] [H1 H2]].
@@ -616,6 +638,50 @@ Proof.
     apply bind_ok in H2. destruct H2 as [dd [_ H2]].
     destruct (ec_pub_of_priv L curve dd); [|discriminate]. destruct (beq _ _); [|discriminate].
     inversion H2; subst. simpl. discriminate.
+Qed.
+
+Lemma composite_of_classical_point private alg d d' :
+  point_shaped d -> composite_of_classical private alg d = Ok d' -> point_shaped d'.
+Proof.
+  unfold composite_of_classical. intros P.
+  destruct d; try discriminate; try (destruct pss); intros H; apply okb_ok in H; destruct H as [_ ->]; cbn; auto.
+Qed.
+
+Lemma parse_composite_point private kd prefix idreq d :
+  parse_composite L private kd prefix idreq = Ok d -> point_shaped d.
+Proof.
+  unfold parse_composite. cbv zeta.
+  destruct (negb (kd_mat kd =? _)); [discriminate|]. destruct (negb (wire_ok _ _)); [discriminate|].
+  destruct (negb (_ && _)); [discriminate|].
+  intros H. apply bind_ok in H. destruct H as [m [_ H]]. revert H. match goal with |- (if ?c then Err else _) = Ok _ -> _ => destruct c; [discriminate|] end.
+  intros H. apply bind_ok in H. destruct H as [cd [Hc H]]. revert H. match goal with |- (if ?c then Err else _) = Ok _ -> _ => destruct c; [discriminate|] end. intros H.
+  eapply composite_of_classical_point; [eapply parse_key_base_point; exact Hc | exact H].
+Qed.
+
+(* the composite parsers hand out composite key objects of the right half *)
+Lemma composite_of_classical_kind private alg d d' :
+  composite_of_classical private alg d = Ok d' -> exists cp pt seed, d' = PComposite private cp pt seed.
+Proof.
+  unfold composite_of_classical.
+  destruct d; try discriminate; try (destruct pss); intros H; apply okb_ok in H; destruct H as [_ ->]; eauto.
+Qed.
+
+Lemma parse_composite_kind private kd prefix idreq d :
+  parse_composite L private kd prefix idreq = Ok d ->
+  kd_mat kd = (if private then km_private else km_public) /\ exists cp pt seed, d = PComposite private cp pt seed.
+Proof.
+  unfold parse_composite. cbv zeta.
+  destruct (negb (kd_mat kd =? _)) eqn:M; [discriminate|]. destruct (negb (wire_ok _ _)); [discriminate|].
+  destruct (negb (_ && _)); [discriminate|].
+  intros H. apply bind_ok in H. destruct H as [m [_ H]]. revert H. match goal with |- (if ?c then Err else _) = Ok _ -> _ => destruct c; [discriminate|] end.
+  intros H. apply bind_ok in H. destruct H as [cd [_ H]]. revert H. match goal with |- (if ?c then Err else _) = Ok _ -> _ => destruct c; [discriminate|] end. intros H.
+  apply negb_false_iff, N.eqb_eq in M. split; [exact M | eapply composite_of_classical_kind; exact H].
+Qed.
+
+Lemma parse_key_point kd prefix idreq d : parse_key kd prefix idreq = Ok d -> point_shaped d.
+Proof.
+  unfold Untrusted.parse_key. destruct (url_is kd u_composite_pub); [apply parse_composite_point|].
+  destruct (url_is kd u_composite_priv); [apply parse_composite_point | apply parse_key_base_point].
 Qed.
 
 Lemma prim_ok_np d : point_shaped d -> prim_ok L d <> Panic.
@@ -640,6 +706,13 @@ Proof.
       rewrite E. cbn [bind]. destruct (dem =? dem_xchacha); [discriminate|].
       destruct (slice_ok 0 c xy) as [r1 [-> _]]; try lia. cbn [bind].
       destruct (slice_ok c (length xy) xy) as [r2 [-> _]]; try lia. cbn [bind]. discriminate.
+  - (* composite ML-DSA: the classical half *)
+    assert (Q : bind (match point with [] => Ok true | _ => ecdsa_point_slices point end)
+                  (fun _ => match seed with Some sd => bind (ed25519_from_seed L sd) (fun _ => Ok true) | None => Ok true end) <> Panic);
+      [|destruct private, classical_private; try exact Q; discriminate].
+    apply bind_np.
+    + destruct point as [|p0 pt]; [discriminate|]. unfold ecdsa_point_slices. apply P. discriminate.
+    + intros _ _. destruct seed as [sd|]; [|discriminate]. rewrite (ed25519_from_seed_ok _ H). discriminate.
 Qed.
 
 Theorem parse_then_prim_np kd prefix idreq d :
@@ -1024,7 +1097,7 @@ Notation usable := (usable L).
 (* select the parser of the key's type URL: every comparison of two constant
    URLs is evaluated *)
 Ltac dispatch H U :=
-  unfold Untrusted.usable, Untrusted.parse_key, url_is in H; rewrite U in H;
+  unfold Untrusted.usable, Untrusted.parse_key, Untrusted.parse_key_base, url_is in H; rewrite U in H;
   repeat match type of H with context [beq ?a ?b] =>
      let v := eval vm_compute in (beq a b) in change (beq a b) with v in H end;
   cbv iota zeta in H.
@@ -1191,7 +1264,7 @@ Lemma strength_rsa_pkcs1_priv kd prefix idreq : usable kd prefix idreq = true ->
   is_url kd url_rsa_pkcs1_priv -> rsa_strong (get_sub 2 (vfields kd)).
 Proof.
   intros H U. change (kd_url kd = u_rsa_pkcs1_priv) in U.
-  unfold Untrusted.usable, Untrusted.parse_key, parse_key_more, url_is in H; rewrite U in H;
+  unfold Untrusted.usable, Untrusted.parse_key, Untrusted.parse_key_base, parse_key_more, url_is in H; rewrite U in H;
   repeat match type of H with context [beq ?a ?b] =>
      let v := eval vm_compute in (beq a b) in change (beq a b) with v in H end;
   cbv iota in H.
@@ -1204,7 +1277,7 @@ Lemma strength_rsa_pss_priv kd prefix idreq : usable kd prefix idreq = true ->
   is_url kd url_rsa_pss_priv -> rsa_strong (get_sub 2 (vfields kd)).
 Proof.
   intros H U. change (kd_url kd = u_rsa_pss_priv) in U.
-  unfold Untrusted.usable, Untrusted.parse_key, parse_key_more, url_is in H; rewrite U in H;
+  unfold Untrusted.usable, Untrusted.parse_key, Untrusted.parse_key_base, parse_key_more, url_is in H; rewrite U in H;
   repeat match type of H with context [beq ?a ?b] =>
      let v := eval vm_compute in (beq a b) in change (beq a b) with v in H end;
   cbv iota in H.
@@ -1214,7 +1287,7 @@ Proof.
 Qed.
 
 Ltac dispatch_more H U :=
-  unfold Untrusted.usable, Untrusted.parse_key, parse_key_more, url_is in H; rewrite U in H;
+  unfold Untrusted.usable, Untrusted.parse_key, Untrusted.parse_key_base, parse_key_more, url_is in H; rewrite U in H;
   repeat match type of H with context [beq ?a ?b] =>
      let v := eval vm_compute in (beq a b) in change (beq a b) with v in H end;
   cbv iota in H.
